@@ -236,20 +236,30 @@ func c03R2(p *core.Program, r *core.Report) {
 		ast.Inspect(f.Body, func(n ast.Node) bool {
 			switch x := n.(type) {
 			case *ast.KeyValueExpr:
-				if id, ok := x.Key.(*ast.Ident); ok && id.Name == "imports" {
-					if v, ok := info.ObjectOf(id).(*types.Var); ok && v.IsField() {
-						stores++
-						storePos = x.Pos()
-						if core.AsCall(info, x.Value, core.G("pkg/namer.NewDefaultImportTracker")) != nil {
-							fresh = true
-						}
+				if id, ok := x.Key.(*ast.Ident); ok && isRole(p, fieldVarOf(info, id), "file.imports") {
+					stores++
+					storePos = x.Pos()
+					if core.AsCall(info, x.Value, core.G("pkg/namer.NewDefaultImportTracker")) != nil {
+						fresh = true
 					}
 				}
 			case *ast.AssignStmt:
-				for _, l := range x.Lhs {
+				for i, l := range x.Lhs {
 					if fld := core.FieldOf(info, l); isRole(p, fld, "file.imports") && core.NamedTypeName(fld.Type()) == core.G("pkg/namer.ImportTracker") {
 						stores++
 						storePos = x.Pos()
+						// field-by-field construction: `gf := &T{}; gf.imports = NewDefaultImportTracker()` on a local that was just allocated
+						if i < len(x.Rhs) && len(x.Lhs) == len(x.Rhs) && core.AsCall(info, x.Rhs[i], core.G("pkg/namer.NewDefaultImportTracker")) != nil {
+							if hv := core.VarOf(info, l.(*ast.SelectorExpr).X); hv != nil && !isParamOf(f.Root(), hv) && hv != recvVar(f.Root()) {
+								if d, ok := core.SingleDef(info, f.Root().Body, hv); ok {
+									if u, isU := ast.Unparen(d.Rhs).(*ast.UnaryExpr); isU && u.Op == token.AND {
+										if _, isLit := ast.Unparen(u.X).(*ast.CompositeLit); isLit {
+											fresh = true
+										}
+									}
+								}
+							}
+						}
 					}
 				}
 			}
@@ -275,11 +285,25 @@ func c03R2(p *core.Program, r *core.Report) {
 	}
 	r.Check(okNamer, rule, iw, "the namer registers into the file's own tracker", iw.Node().Pos(), "NewRawNamer(_, ff.imports)", "the namer is given another tracker than ff.imports")
 	okPrint := false
-	wi := core.CallsTo(wf.Info(), wf.Body, true, core.G("pkg/gengo.writeImports"))
+	var wi []*ast.CallExpr
+	for _, c := range core.Calls(wf.Body, true) {
+		if isImportPrinterCall(p, wf.Info(), c) {
+			wi = append(wi, c)
+		}
+	}
 	for _, c := range wi {
-		if len(c.Args) == 2 {
-			if ic := core.AsCall(wf.Info(), c.Args[1], ifaceImports); ic != nil && isImportsField(wf.Info(), recvOf(ic)) && sameAlias(wf, recvOf(ic).(*ast.SelectorExpr).X, recvVar(wf)) {
+		// the map is passed in: printer(_, ff.imports.Imports())
+		for _, a := range c.Args {
+			if ic := core.AsCall(wf.Info(), a, ifaceImports); ic != nil && isImportsField(wf.Info(), recvOf(ic)) && sameAlias(wf, recvOf(ic).(*ast.SelectorExpr).X, recvVar(wf)) {
 				okPrint = true
+			}
+		}
+		// or the printer is a method of the file and reads its own tracker: ff.printer(_) with m := ff.imports.Imports() inside
+		if ip := importPrinter(p); ip != nil && ip.Decl.Recv != nil && sameAlias(wf, recvOf(c), recvVar(wf)) {
+			for _, ic := range core.CallsTo(ip.Info(), ip.Body, true, ifaceImports) {
+				if isImportsField(ip.Info(), recvOf(ic)) && core.VarOf(ip.Info(), recvOf(ic).(*ast.SelectorExpr).X) == recvVar(ip) {
+					okPrint = true
+				}
 			}
 		}
 	}
@@ -291,12 +315,13 @@ func c03R2(p *core.Program, r *core.Report) {
 // "foreign types correctly imported").
 func importBlockRule(p *core.Program, r *core.Report, rule string) {
 	// writeImports: one line per key, name from the same map, no mutation
-	w := p.FuncByName("pkg/gengo", "writeImports")
+	w := importPrinter(p)
 	if w == nil {
-		r.Anchor(rule, "pkg/gengo.writeImports")
+		r.Anchor(rule, "the import printer of pkg/gengo (the function that writes `import (`)")
 		return
 	}
 	info := w.Info()
+	// the path->name map: a parameter, or a local read from the tracker's Imports()
 	var mp *types.Var
 	for _, fld := range w.Decl.Type.Params.List {
 		for _, n := range fld.Names {
@@ -304,6 +329,22 @@ func importBlockRule(p *core.Program, r *core.Report, rule string) {
 				mp = v
 			}
 		}
+	}
+	if mp == nil {
+		ast.Inspect(w.Body, func(n ast.Node) bool {
+			as, ok := n.(*ast.AssignStmt)
+			if !ok || len(as.Lhs) != 1 || len(as.Rhs) != 1 {
+				return true
+			}
+			if c, isCall := ast.Unparen(as.Rhs[0]).(*ast.CallExpr); isCall && strings.HasSuffix(core.CalleeName(info, c), ").Imports") {
+				if v := core.VarOf(info, as.Lhs[0]); v != nil && isMapType(v.Type()) {
+					if _, single := core.SingleDef(info, w.Body, v); single {
+						mp = v
+					}
+				}
+			}
+			return true
+		})
 	}
 	mutated := false
 	ast.Inspect(w.Body, func(n ast.Node) bool {
@@ -474,9 +515,10 @@ func c03Tracker(p *core.Program, r *core.Report) {
 			return
 		}
 	}
-	sf := stores[0].f
+	// the unit the stores belong to: lookups and stores moved into small private helpers of the tracker are seen in place
+	sf := unit(p, stores[0].f)
 	for _, s := range stores {
-		if s.f != sf {
+		if unit(p, s.f) != sf {
 			r.Bad("R4", s.f, "tracker maps are written in one function", s.as.Pos(), "the two maps are written by different functions and can get out of step")
 		}
 	}
@@ -499,7 +541,17 @@ func c03Tracker(p *core.Program, r *core.Report) {
 	pp, np := g.PointOf(pathStore), g.PointOf(nameStore)
 	r.Check(pp.B == np.B, "R4", sf, "both maps are updated together", pathStore.Pos(), "same basic block", "the two stores are not in the same basic block: one map can be updated without the other")
 	// consistent: pathToName[path] = name ; nameToPath[name] = path
-	r.Check(core.SameRef(info, pIx.Index, nameStore.Rhs[0]) && core.SameRef(info, nIx.Index, pathStore.Rhs[0]), "R4", sf, "the two maps are inverse of each other", pathStore.Pos(),
+	canonSame := func(a, b ast.Expr) bool {
+		if core.SameRef(info, a, b) {
+			return true
+		}
+		va, vb := core.CanonVarOf(info, sf.Root().Body, a), core.CanonVarOf(info, sf.Root().Body, b)
+		if va != nil && va == vb {
+			return true
+		}
+		return copiesOfSame(sf, va, vb)
+	}
+	r.Check(canonSame(pIx.Index, nameStore.Rhs[0]) && canonSame(nIx.Index, pathStore.Rhs[0]), "R4", sf, "the two maps are inverse of each other", pathStore.Pos(),
 		"pathToName[p] = n and nameToPath[n] = p", "the two stores do not record the same (path, name) pair")
 	// absent-edge guards
 	absent := func(at cfgx.Point, mapName string, key ast.Expr) bool {
@@ -508,7 +560,8 @@ func c03Tracker(p *core.Program, r *core.Report) {
 			if v == nil || fct.Val {
 				continue
 			}
-			d, ok := core.SingleDef(info, sf.Body, v)
+			v = core.CanonVar(info, sf.Root().Body, v) // the result of a small lookup helper is a copy of its `ok`
+			d, ok := core.SingleDef(info, sf.Root().Body, v)
 			if !ok || d.Index != 1 {
 				continue
 			}
@@ -516,7 +569,7 @@ func c03Tracker(p *core.Program, r *core.Report) {
 			if !ok {
 				continue
 			}
-			if fld := core.FieldOf(info, ix.X); fld != nil && isTrackerMap(fld) == mapName && core.SameRef(info, ix.Index, key) {
+			if fld := core.FieldOf(info, ix.X); fld != nil && isTrackerMap(fld) == mapName && canonSame(ix.Index, key) {
 				return true
 			}
 		}
@@ -530,8 +583,22 @@ func c03Tracker(p *core.Program, r *core.Report) {
 	// R5 validity
 	valid := false
 	for _, fct := range g.FactsAt(np) {
-		if c := core.AsCall(info, fct.Cond, "go/token.IsIdentifier"); c != nil && fct.Val && core.SameRef(info, c.Args[0], nIx.Index) {
-			valid = true
+		if c := core.AsCall(info, fct.Cond, "go/token.IsIdentifier"); c != nil && fct.Val {
+			if canonSame(c.Args[0], nIx.Index) {
+				valid = true
+				continue
+			}
+			// the stored key is a copy (an inlined helper's parameter) of the tested variable, made where the
+			// test still holds (FactsAt only keeps a fact while its variables are not re-assigned)
+			if kv := core.VarOf(info, nIx.Index); kv != nil {
+				if d, ok := core.SingleDef(info, sf.Root().Body, kv); ok && d.Index < 0 && core.VarOf(info, d.Rhs) != nil && core.VarOf(info, d.Rhs) == core.VarOf(info, c.Args[0]) {
+					for _, f2 := range g.FactsAt(g.PointOf(d.Stmt)) {
+						if f2.Cond == fct.Cond && f2.Val {
+							valid = true
+						}
+					}
+				}
+			}
 		}
 	}
 	r.Check(valid, "R5", sf, "committed name is a valid non-keyword identifier", nameStore.Pos(), "dominated by token.IsIdentifier(name) == true",
@@ -555,12 +622,13 @@ func c03Tracker(p *core.Program, r *core.Report) {
 				if v == nil || !a.Val {
 					continue
 				}
-				d, ok := core.SingleDef(info, sf.Body, v)
+				v = core.CanonVar(info, sf.Root().Body, v)
+				d, ok := core.SingleDef(info, sf.Root().Body, v)
 				if !ok || d.Index != 1 {
 					continue
 				}
 				if ix, ok := ast.Unparen(d.Rhs).(*ast.IndexExpr); ok {
-					if fld := core.FieldOf(info, ix.X); isRole(p, fld, "tracker.byPath") && core.SameRef(info, ix.Index, pIx.Index) {
+					if fld := core.FieldOf(info, ix.X); isRole(p, fld, "tracker.byPath") && canonSame(ix.Index, pIx.Index) {
 						return true
 					}
 				}
